@@ -402,6 +402,26 @@ class ChainBuild(Suite):
             dict(classes=[dict(K(0, 'Abc', params=[P('opt')]), name='abc')],
                  files={}, base={'name': 'm', 'data': {'tasks': ['@M.*'], 'opt': 1}},
                  context={'list': [{'dict': {'opt': {'a': {'deep': 1, 'gone': 2}}}}, {'dict': {'opt': {'a': {'deep': 3}}}}]}),
+            # one context file used for two namespaces, and used globally and for a namespace
+            dict(classes=[dict(K(0, 'Abc', params=[P('x', default=[0]), P('y', default=[0])]), name='abc')],
+                 files={'d.json': {'tasks': ['@M.*']}, 'ctx/top.json': {'uses': ['ctx/small.json as train', 'ctx/small.json as valid']},
+                        'ctx/small.json': {'x': 9}},
+                 base={'name': 'm', 'data': {'tasks': ['@M.*'], 'uses': ['d.json as train', 'd.json as valid', 'd.json as test']}},
+                 context={'file': 'ctx/top.json'}, hist=True),
+            dict(classes=[dict(K(0, 'Abc', params=[P('x', default=[0]), P('y', default=[0])]), name='abc')],
+                 files={'d.json': {'tasks': ['@M.*'], 'x': 5}, 'ctx/top.json': {'uses': ['ctx/small.json', 'ctx/small.json as ns']},
+                        'ctx/small.json': {'y': 9}},
+                 base={'name': 'm', 'data': {'tasks': ['@M.*'], 'uses': ['d.json as ns', 'd.json as other']}},
+                 context={'file': 'ctx/top.json'}),
+            # a dependant inside a namespace names an input in a sub-namespace by its relative name, while a task at the top
+            # level has exactly that full name
+            dict(classes=[dict(K(0, 'Dataset', params=[P('x')]), name='dataset'), dict(K(1, 'Stats', meta_inputs=[{'name': 'source::dataset'}]), name='stats')],
+                 files={'src.json': {'tasks': ['@M.Dataset'], 'x': 1}, 'top_src.json': {'tasks': ['@M.Dataset'], 'x': 2},
+                        'exp.json': {'tasks': ['@M.Stats'], 'uses': 'src.json as source'}},
+                 base={'name': 'm', 'data': {'uses': ['top_src.json as source', 'exp.json as exp']}}, context=None, hist=True),
+            dict(classes=[dict(K(0, 'Dataset', params=[P('x')]), name='dataset'), dict(K(1, 'Stats', meta_inputs=[{'name': 'source::dataset'}]), name='stats')],
+                 files={'top_src.json': {'tasks': ['@M.Dataset'], 'x': 2}, 'exp.json': {'tasks': ['@M.Stats']}},
+                 base={'name': 'm', 'data': {'uses': ['exp.json as exp', 'top_src.json as source']}}, context=None),
             # an input in a nested namespace whose name contains the outer namespace's name
             dict(classes=[dict(K(0, 'Producer'), name='producer'),
                           dict(K(1, 'Consumer', meta_inputs=[{'name': 'basemodel::producer'}]), name='consumer')],
